@@ -1,7 +1,8 @@
 """C06 — local-frame conversions are proper rotations tied to the geodetic normal.
 
 translate:   translator/extract_geodesy.py → Generated/PositionSystems.lean (registered conversion graph),
-             Generated/Ellipsoids.lean
+             Generated/Ellipsoids.lean; translator/extract_frames.py → Generated/SourceFrames.lean (the frame properties of
+             _position.py and the six delta_* conversions as functions of position objects, from the `ast`)
 prove:       lean/Midgard/Props/C06.lean — rotation algebra for every (c, s) with c² + s² = 1 over any commutative
              ring, the ENU triad tied to the ellipsoid normal, the ACR triad, block-diagonal 6×6 variants, angle
              addition / derivatives over ℝ
@@ -14,7 +15,11 @@ oracle:      the property stated on the real code: orthonormality, det = +1, R(-
              dR = d/da R (central differences), norm/angle preservation and round trip < 1e-9 relative, Up = ellipsoid
              normal (height changes by exactly the displacement along Up; parallel to the quadric's gradient),
              East ⟂ z-axis and Up, North = Up × East, ACR triad orthonormal / right-handed / radial = r̂,
-             az/el/zd = angles of the target in the triad, identical results for shapes (k,), (1,k), (n,k)
+             az/el/zd = angles of the target in the triad, identical results for shapes (k,), (1,k), (n,k);
+             rows are independent (first and last row of an array converted on their own, both directions, also for
+             reference positions 1e-3..10 m / orbit states 0.1..10 ms apart); the frame, llh, az/el/zd and converted
+             components of `array[i | -i | np.int | a:b | ::s | list | int array | mask]` are those of the same rows of
+             the array, on every registered ellipsoid
 """
 from __future__ import annotations
 
@@ -40,9 +45,14 @@ def _imp():
 
 
 def translate():
-    from translator import extract_geodesy
+    from translator import extract_frames, extract_geodesy
 
-    return extract_geodesy.write_all()
+    out = extract_geodesy.write_all()
+    changed, info = extract_frames.generate()    # frame properties of _position.py / delta conversions, from the `ast`
+    out["SourceFrames.lean"] = changed
+    out["frame_functions_translated"] = len(info["translated"])
+    out["frame_functions_not_translated"] = info["not_translated"]
+    return out
 
 
 # --------------------------------------------------------------------------------------------------
@@ -95,19 +105,25 @@ def run(ctx: Ctx):
                 "scalar/list/(n,) inputs; frames: reference positions at all latitudes incl. exact poles/equator and "
                 "longitudes incl. +-pi on the 7 registered ellipsoids, given in trs or llh, heights -100 km..50 000 km; "
                 "difference vectors zero / axis-aligned / 1e-9..1e8 m in every octant; orbit states with non-parallel "
-                "r, v (incl. nearly parallel, retrograde); shapes (k,), (1,k), (n,k). A case is non-trivial when the "
+                "r, v (incl. nearly parallel, retrograde); shapes (k,), (1,k), (n,k); 30 % of the arrays have reference rows that "
+                "are 1e-3..10 m (orbit states: 0.1..10 ms of motion) apart; rows taken from arrays of 2..6 rows with an int, "
+                "negative int, np.int_, slice, stepped/reversed slice, list, int array or boolean mask, array-level properties read "
+                "before or after the rows. A case is non-trivial when the "
                 "angle / vector is non-zero; distinct by canonical input values.")
     ctx.trusted += ["floating-point error is measured on the sampled inputs (<= 2 ulp per matrix entry against the Float "
                     "model, exact equality against the Rat model of the algebraic part), not proved",
                     "libm sin/cos/atan2/asin (principal ranges) trusted",
                     "NumPy broadcasting over the leading axis modelled as map over rows",
-                    "translator/extract_geodesy.py (import of midgard.data.position: registered conversion graph)"]
+                    "translator/extract_geodesy.py (import of midgard.data.position: registered conversion graph)",
+                    "translator/extract_frames.py (a ~300-line symbolic evaluator of the frame properties over position objects; "
+                    "refuses anything outside its fragment)"]
     ctx.assumptions += ["model inputs are the exact doubles the implementation was given"]
     run_corpus(ctx, "C06", lambda c: corpus_case(ctx, c))
     check_axis_rotations(ctx)
     check_enu_matrices(ctx)
     check_position_frames(ctx)
     check_histories(ctx)
+    check_indexed_frames(ctx)
     check_acr(ctx)
     check_azel(ctx)
     ctx.traces = ctx.evaluations
@@ -120,6 +136,9 @@ def corpus_case(ctx, c):
     try:
         if c.get("kind") == "acr":
             one_acr(ctx, case, c["shape"], [tuple(s) for s in c["states"]], c["delta"])
+        elif c.get("kind") == "rows" and c["ellipsoid"] in ellipsoid._ELLIPSOIDS:
+            trs_rows = [np.asarray(T.llh2trs(np.array(r, dtype=float), ellipsoid.get(c["ellipsoid"])), dtype=float).reshape(-1, 3)[0].tolist() for r in c["ref_llh"]]
+            one_indexed(ctx, {**case, "ref_trs": trs_rows})
         elif c.get("kind") == "frame" and c["ellipsoid"] in ellipsoid._ELLIPSOIDS:
             E = ellipsoid.get(c["ellipsoid"])
             trs_rows = [np.asarray(T.llh2trs(np.array(r, dtype=float), E), dtype=float).reshape(-1, 3)[0].tolist() for r in c["ref_llh"]]
@@ -290,6 +309,21 @@ def gen_ref_llh(rng):
     return [lat, lon, h]
 
 
+def near_rows(rng, E, llh0, m):
+    """m geodetic positions: llh0 and m-1 others that are 1e-3 .. 10 m away from it (all different)"""
+    lat0, lon0, h0 = llh0
+    rows = [list(llh0)]
+    R = E.a + h0
+    for i in range(1, m):
+        d = 10.0 ** rng.uniform(-3, 1) * (i if rng.random() < 0.5 else 1)
+        u = unit_dir(rng)
+        lat = min(PI / 2, max(-PI / 2, lat0 + d * u[1] / R))
+        lon = lon0 + d * u[0] / max(R * abs(math.cos(lat0)), 1.0)
+        lon = (lon + PI) % (2 * PI) - PI if abs(lon) > PI else lon
+        rows.append([lat, lon, h0 + d * u[2]])
+    return rows
+
+
 def check_position_frames(ctx: Ctx):
     Position, PositionDelta, PosVel, PosVelDelta, ellipsoid, rotation, T = _imp()
     drv, rng = ctx.driver, ctx.rng
@@ -301,6 +335,11 @@ def check_position_frames(ctx: Ctx):
         m = rng.choice([1, 1, 1, 2, 3, 5])
         shape = rng.choice(["1d", "1xk"]) if m == 1 else "nxk"
         llh_rows = [gen_ref_llh(rng) for _ in range(m)]
+        near = rng.random() < 0.3
+        if near:
+            # a slowly moving receiver: every row a different reference position, 1e-3 .. 10 m from the first one
+            m, shape = max(m, rng.choice([2, 3, 6])), "nxk"
+            llh_rows = near_rows(rng, E, llh_rows[0], m)
         ref_sys = rng.choice(["trs", "llh"])
         trs_rows = [np.asarray(T.llh2trs(np.array(r), E), dtype=float).reshape(-1, 3)[0].tolist() for r in llh_rows]
         dvecs = [gen_vec(rng) for _ in range(m)]
@@ -309,6 +348,9 @@ def check_position_frames(ctx: Ctx):
         case = {"fn": "delta trs<->enu", "ellipsoid": ell, "shape": shape, "ref_sys": ref_sys, "ref_llh": llh_rows,
                 "ref_trs": trs_rows, "delta": dvecs, "dvel": dvels if six else None}
         ctx.case(case, nontrivial=any(any(x != 0 for x in d) for d in dvecs))
+        if near:
+            rows_used = np.array(trs_rows if (ref_sys == "trs" or six) else llh_rows)
+            ctx.count("frame:ref rows 1e-3..10 m apart" + (" (np.allclose to row 0)" if np.allclose(rows_used, rows_used[0]) else ""))
         ctx.count(f"frame:shape={shape}")
         ctx.count(f"frame:ell={ell}")
         ctx.count("frame:posvel" if six else "frame:position")
@@ -363,6 +405,7 @@ def one_frame(ctx, case, ell, E, shape, ref_sys, llh_rows, trs_rows, dvecs, dvel
             lines.append(f"c06 f trs2enu {fline(llh_rows[i][0], llh_rows[i][1])}")
     ans = drv.ask(lines)
     lines2 = []
+    frames = []
     for i in range(m):
         mod = floats(ans[i])
         if not allclose(t2e[i].ravel(), mod, ulp=4, abs_=1e-15):
@@ -376,15 +419,25 @@ def one_frame(ctx, case, ell, E, shape, ref_sys, llh_rows, trs_rows, dvecs, dvel
         else:
             lines2.append(f"c06 f dtrs2enuCS {fline(*cs)} {fline(*dvecs[i])}")
             lines2.append(f"c06 f denu2trsCS {fline(*cs)} {fline(*enu[i])}")
+        frames.append((lat, lon))
     ans2 = drv.ask(lines2)
+    # the array-level model (`rowsTrs2Enu` …: zipWith over the rows, every row in the frame of its own reference position)
+    # is, row by row, the one-row model
+    k6 = 6 if six else 3
+    allrows = " ".join(str(i) for i in range(m))
+    fwd = floats(drv.ask1(f"c06 f rows {'d6' if six else ''}trs2enu {m} {allrows} " + " ".join(fline(*frames[i], *dvecs[i], *(dvels[i] if six else [])) for i in range(m))))
+    bwd = floats(drv.ask1(f"c06 f rows {'d6' if six else ''}enu2trs {m} {allrows} " + " ".join(fline(*frames[i], *enu[i]) for i in range(m))))
+    ctx.count("model:rows(trs<->enu)")
+    if fwd != [x for i in range(m) for x in floats(ans2[2 * i])] or bwd != [x for i in range(m) for x in floats(ans2[2 * i + 1])] or len(fwd) != m * k6:
+        gdisagree(ctx, "array-level model rowsTrs2Enu/rowsEnu2Trs vs the one-row model", case, [fwd, bwd], [ans2])
     for i in range(m):
         full = list(dvecs[i]) + (list(dvels[i]) if six else [])
         for part in range(2 if six else 1):
             sl = slice(3 * part, 3 * part + 3)
             scale = float(np.linalg.norm(full[sl]))
             tol = 4 * scale * 2.3e-16 + 1e-300
-            mod_e = floats(ans2[2 * i])[sl]
-            mod_b = floats(ans2[2 * i + 1])[sl]
+            mod_e = fwd[k6 * i: k6 * i + k6][sl]
+            mod_b = bwd[k6 * i: k6 * i + k6][sl]
             if worst(enu[i][sl], mod_e) > tol:
                 gdisagree(ctx, "delta_trs2enu%s (Float model)" % ("_posvel" if six else ""), {**case, "i": i, "part": part}, mod_e, enu[i][sl].tolist())
             if worst(back[i][sl], mod_b) > tol:
@@ -411,6 +464,10 @@ def one_frame(ctx, case, ell, E, shape, ref_sys, llh_rows, trs_rows, dvecs, dvel
             proj = np.array([np.dot(d, east), np.dot(d, north), np.dot(d, up)])
             if float(np.max(np.abs(proj - enu[i][sl]))) > REL * nd + 1e-300:
                 gviolate(ctx, "enu=projections-on-triad", f"enu components {enu[i][sl].tolist()} are not the projections {proj.tolist()} on East/North/Up", {**case, "i": i, "part": part})
+            # ... and the other direction on its own: the TRS vector of ENU components is e East + n North + u Up of *this* row
+            comb = enu[i][sl][0] * east + enu[i][sl][1] * north + enu[i][sl][2] * up
+            if float(np.max(np.abs(comb - back[i][sl]))) > REL * nd + 1e-300:
+                gviolate(ctx, "trs=combination-of-triad", f"enu -> trs gives {back[i][sl].tolist()} but e*East + n*North + u*Up of the row's reference position is {comb.tolist()}", {**case, "i": i, "part": part})
         # the triad of the Position object is the geodetic one.  Ground truth: the geodetic coordinates the reference was
         # generated from (trs_rows = llh2trs(llh_rows) to ~1 ulp); when the reference is handed over in TRS the frame
         # goes through the one-step trs2llh, whose own accuracy (C05: 1e-6 m near, 2 mm far) bounds the angles
@@ -471,19 +528,27 @@ def llh_of(T, xyz, E):
 
 
 def shape_consistency(ctx, case, six, ref_sys, ref_rows, dvecs, dvels, E, enu):
+    """rows are independent: a row converted on its own — as (k,) and as (1,k), with its own reference position — gives the
+    numbers of that row of the array (first and last row; to rounding, far below the property's 1e-9)"""
     Position, PositionDelta, PosVel, PosVelDelta, *_ = _imp()
-    i = 0
-    for shape in ("1d", "1xk"):
-        if six:
-            ref = PosVel(as_shape([list(ref_rows[i]) + [10.0, -20.0, 30.0]], shape), ref_sys, ellipsoid=E)
-            d = PosVelDelta(as_shape([list(dvecs[i]) + list(dvels[i])], shape), "trs", ref_pos=ref)
-        else:
-            ref = Position(as_shape([ref_rows[i]], shape), ref_sys, ellipsoid=E)
-            d = PositionDelta(as_shape([dvecs[i]], shape), "trs", ref_pos=ref)
-        got = np.asarray(d.enu, dtype=float).ravel()
-        scale = float(np.linalg.norm(dvecs[i])) + (float(np.linalg.norm(dvels[i])) if six else 0.0)
-        if got.shape != enu[i].shape or float(np.max(np.abs(got - enu[i]))) > 8 * 2.3e-16 * scale:
-            gviolate(ctx, f"shape-consistency:delta.enu:{shape}", f"delta.enu of one row given as {shape} is {got.tolist()} but {enu[i].tolist()} as row of the array", {**case, "as": shape})
+    for i in sorted({0, len(dvecs) - 1}):
+        for shape in ("1d", "1xk"):
+            if six:
+                ref = PosVel(as_shape([list(ref_rows[i]) + [10.0, -20.0, 30.0]], shape), ref_sys, ellipsoid=E)
+                d = PosVelDelta(as_shape([list(dvecs[i]) + list(dvels[i])], shape), "trs", ref_pos=ref)
+            else:
+                ref = Position(as_shape([ref_rows[i]], shape), ref_sys, ellipsoid=E)
+                d = PositionDelta(as_shape([dvecs[i]], shape), "trs", ref_pos=ref)
+            got = np.asarray(d.enu, dtype=float).ravel()
+            scale = float(np.linalg.norm(dvecs[i])) + (float(np.linalg.norm(dvels[i])) if six else 0.0)
+            if got.shape != enu[i].shape or float(np.max(np.abs(got - enu[i]))) > 8 * 2.3e-16 * scale:
+                gviolate(ctx, f"shape-consistency:delta.enu:{shape}", f"delta.enu of row {i} given on its own as {shape} is {got.tolist()} but {enu[i].tolist()} as row of the array", {**case, "as": shape, "i": i})
+            # the other direction: the ENU components of the row back to TRS, on its own
+            cls = PosVelDelta if six else PositionDelta
+            back1 = np.asarray(cls(as_shape([enu[i].tolist()], shape), "enu", ref_pos=ref).trs, dtype=float).ravel()
+            want = np.array(list(dvecs[i]) + (list(dvels[i]) if six else []))
+            if back1.shape != want.shape or any(float(np.max(np.abs(back1[q:q + 3] - want[q:q + 3]))) > REL * float(np.linalg.norm(want[q:q + 3])) for q in range(0, len(want), 3)):
+                gviolate(ctx, f"shape-consistency:enu-delta.trs:{shape}", f"the ENU components of row {i} converted to TRS on their own ({shape}) give {back1.tolist()}, the vector was {want.tolist()}", {**case, "as": shape, "i": i})
 
 
 # --------------------------------------------------------------------------------------------------
@@ -657,6 +722,213 @@ def one_history(ctx, c):
 
 
 # --------------------------------------------------------------------------------------------------
+# rows / slices / masks of an array: the frame of row i is the frame of `array[...]` at that row, on every ellipsoid
+
+
+def gen_index(rng, m):
+    """an index expression for an array of m rows and the row numbers it selects"""
+    kind = rng.choice(["int", "negint", "np.int", "slice", "stepslice", "list", "intarray", "mask"])
+    if kind == "int":
+        i = rng.randrange(m)
+        return kind, i, [i], i
+    if kind == "negint":
+        i = rng.randrange(m)
+        return kind, i - m, [i], i - m
+    if kind == "np.int":
+        i = rng.randrange(m)
+        return kind, np.int_(i), [i], i
+    if kind == "slice":
+        a = rng.randrange(m)
+        b = rng.randint(a + 1, m)
+        return kind, slice(a, b), list(range(a, b)), [a, b]
+    if kind == "stepslice":
+        st = rng.choice([2, -1, -2])
+        return kind, slice(None, None, st), list(range(m))[::st], [None, None, st]
+    if kind == "list":
+        sel = [rng.randrange(m) for _ in range(rng.randint(1, m))]
+        return kind, list(sel), sel, sel
+    if kind == "intarray":
+        sel = [rng.randrange(m) for _ in range(rng.randint(1, m))]
+        return kind, np.array(sel), sel, sel
+    mask = [rng.random() < 0.5 for _ in range(m)]
+    if not any(mask):
+        mask[rng.randrange(m)] = True
+    return kind, np.array(mask), [i for i, b in enumerate(mask) if b], mask
+
+
+def index_from_json(kind, js):
+    if kind in ("int", "negint"):
+        return int(js)
+    if kind == "np.int":
+        return np.int_(js)
+    if kind == "slice":
+        return slice(js[0], js[1])
+    if kind == "stepslice":
+        return slice(js[0], js[1], js[2])
+    if kind == "list":
+        return list(js)
+    if kind == "intarray":
+        return np.array(js, dtype=int)
+    return np.array(js, dtype=bool)
+
+
+def check_indexed_frames(ctx: Ctx):
+    Position, PositionDelta, PosVel, PosVelDelta, ellipsoid, rotation, T = _imp()
+    rng = ctx.rng
+    names = list(ellipsoid._ELLIPSOIDS)
+    n = ctx.budget(300, 5000)
+    for _ in range(n):
+        ell = rng.choice(names)
+        E = ellipsoid.get(ell)
+        m = rng.choice([2, 3, 4, 6])
+        kind, _, sel, js = gen_index(rng, m)
+        llh_rows = [gen_ref_llh(rng) for _ in range(m)]
+        trs_rows = [np.asarray(T.llh2trs(np.array(r), E), dtype=float).reshape(-1, 3)[0].tolist() for r in llh_rows]
+        targets = [(np.array(p) + np.array(unit_dir(rng)) * rng.uniform(1e3, 3e7)).tolist() for p in trs_rows]
+        case = {"fn": "rows of an array", "ellipsoid": ell, "index_kind": kind, "index": js, "rows": sel,
+                "posvel": rng.random() < 0.35, "ref_sys": rng.choice(["trs", "llh"]), "delta_sys": rng.choice(["trs", "enu"]),
+                "array_read_first": rng.random() < 0.5, "ref_llh": llh_rows, "ref_trs": trs_rows, "target_trs": targets,
+                "vel": [gen_state(rng)[1] for _ in range(m)], "delta": [gen_vec(rng, -3, 7) for _ in range(m)],
+                "dvel": [gen_vec(rng, -6, 3) for _ in range(m)]}
+        ctx.case(case, nontrivial=True)
+        ctx.count(f"index:{kind}")
+        ctx.count(f"index:ell={ell}")
+        ctx.count("index:posvel" if case["posvel"] else "index:position")
+        try:
+            one_indexed(ctx, case)
+        except Exception as e:
+            gviolate(ctx, f"raises:index:{kind}:{type(e).__name__}", f"frame of array[{kind}] raised {type(e).__name__}: {e}", case)
+
+
+def one_indexed(ctx, c):
+    Position, PositionDelta, PosVel, PosVelDelta, ellipsoid, rotation, T = _imp()
+    drv = ctx.driver
+    ell, kind, sel = c["ellipsoid"], c["index_kind"], list(c["rows"])
+    E = ellipsoid.get(ell)
+    idx = index_from_json(kind, c["index"])
+    m = len(c["ref_llh"])
+    six = c["posvel"]
+    one_row = kind in ("int", "negint", "np.int")
+
+    def build():
+        other = Position(np.array(c["target_trs"]), "trs", ellipsoid=E)
+        if six:
+            pos = PosVel(np.array([list(p) + list(v) for p, v in zip(c["ref_trs"], c["vel"])]), "trs", ellipsoid=E, other=other)
+            delta = PosVelDelta(np.array([list(d) + list(w) for d, w in zip(c["delta"], c["dvel"])]), c["delta_sys"], ref_pos=pos)
+        else:
+            pos = Position(np.array(c["ref_llh"] if c["ref_sys"] == "llh" else c["ref_trs"]), c["ref_sys"], ellipsoid=E, other=other)
+            delta = PositionDelta(np.array(c["delta"]), c["delta_sys"], ref_pos=pos)
+        return pos, delta
+
+    names = ["azimuth", "elevation", "zenith_distance"]
+    dst = "enu" if c["delta_sys"] == "trs" else "trs"
+
+    def read(pos, delta):
+        out = {"e2t": np.asarray(pos.enu2trs, dtype=float).reshape(-1, 3, 3), "t2e": np.asarray(pos.trs2enu, dtype=float).reshape(-1, 3, 3),
+               "llh": rows_of(np.asarray(pos.pos.llh.val, dtype=float)), "up": rows_of(np.asarray(pos.enu_up, dtype=float)),
+               "east": rows_of(np.asarray(pos.enu_east, dtype=float)), "north": rows_of(np.asarray(pos.enu_north, dtype=float)),
+               "conv": rows_of(np.asarray(getattr(delta, dst), dtype=float))}
+        for nme in names:
+            out[nme] = np.atleast_1d(np.asarray(getattr(pos, nme), dtype=float))
+        if six:
+            out["acr"] = rows_of(np.asarray(delta.acr if c["delta_sys"] == "trs" else delta.trs.acr, dtype=float))
+        return out
+
+    pos, delta = build()
+    if c["array_read_first"]:
+        whole = read(pos, delta)
+    rows, drows = pos[idx], delta[idx]
+    part = read(rows, drows)
+    if not c["array_read_first"]:
+        whole = read(pos, delta)
+    k = len(sel)
+    # shapes: an integer gives one position (k,), everything else (len, k)
+    want_shape = (6 if six else 3,) if one_row else (k, 6 if six else 3)
+    if np.asarray(rows).shape != want_shape or np.asarray(drows).shape != want_shape:
+        gviolate(ctx, f"shape:index:{kind}", f"array[{kind}] has shape {np.asarray(rows).shape}, delta[{kind}] {np.asarray(drows).shape}; expected {want_shape}", c)
+        return
+    # the ellipsoid goes with the rows
+    for what, obj in (("position", rows), ("ref_pos of the delta", drows.ref_pos)):
+        e_ = getattr(obj, "ellipsoid", None)
+        if e_ is None or e_.a != E.a or e_.f != E.f:
+            gviolate(ctx, "index:ellipsoid-of-rows", f"rows taken with [{kind}] from a {what} on {ell} are on {getattr(e_, 'name', e_)!r}", c)
+    # the frame / angles / converted components of the rows are those of the same rows of the array
+    for j, i in enumerate(sel):
+        cj = {**c, "i": i, "j": j}
+        for nme in ("e2t", "t2e", "up", "east", "north"):
+            if part[nme].shape[0] != k or float(np.max(np.abs(part[nme][j] - whole[nme][i]))) > 1e-14:
+                gviolate(ctx, "index:frame-of-row", f"{nme} of array[{kind}] at row {i} is {part[nme][j].tolist() if part[nme].shape[0] == k else part[nme].shape} but row {i} of the array has {whole[nme][i].tolist()} ({ell})", cj)
+                break
+        if part["llh"].shape[0] == k:
+            dl = np.abs(part["llh"][j] - whole["llh"][i])
+            # the same elementwise arithmetic on fewer rows: NumPy's vector and scalar loops may differ in the last place
+            if dl[0] > 2e-15 or min(dl[1], abs(dl[1] - 2 * PI)) > 2e-15 or dl[2] > 1e-8 + 8 * math.ulp(E.a + abs(whole["llh"][i][2])):
+                gviolate(ctx, "index:llh-of-row", f"llh of array[{kind}] at row {i} is {part['llh'][j].tolist()} but row {i} of array.llh is {whole['llh'][i].tolist()} ({ell})", cj)
+        cosel = max(math.cos(whole["elevation"][i]), 1e-7)
+        for nme in names:
+            if part[nme].shape != (k,):
+                gviolate(ctx, f"shape:index:{nme}", f"{nme} of array[{kind}] has shape {part[nme].shape} for {k} rows", cj)
+                continue
+            dd = abs(part[nme][j] - whole[nme][i])
+            if nme == "azimuth":
+                dd = min(dd, abs(dd - 2 * PI))
+            if dd > 1e-13 / cosel**2:
+                gviolate(ctx, f"index:{nme}-of-row", f"{nme} of array[{kind}] at row {i} is {float(part[nme][j])!r} but row {i} of array.{nme} is {float(whole[nme][i])!r} ({ell})", cj)
+        for nme, label in (("conv", f"delta[{kind}].{dst}"),) + ((("acr", f"delta[{kind}].acr"),) if six else ()):
+            if part[nme].shape != (k, 6 if six else 3):
+                gviolate(ctx, f"shape:index:delta.{dst}", f"{label} has shape {part[nme].shape}", cj)
+                continue
+            for q in range(0, 6 if six else 3, 3):
+                src = np.array((c["delta"] if q == 0 else c["dvel"])[i])
+                nd = float(np.linalg.norm(src))
+                ctol = 16 * 2.3e-16 * nd
+                if nme == "acr":
+                    r_, v_ = np.array(c["ref_trs"][i]), np.array(c["vel"][i])
+                    ctol /= max(float(np.linalg.norm(np.cross(r_ / np.linalg.norm(r_), v_ / np.linalg.norm(v_)))), 1e-12)
+                if float(np.max(np.abs(part[nme][j][q:q + 3] - whole[nme][i][q:q + 3]))) > ctol:
+                    gviolate(ctx, f"index:delta.{dst if nme == 'conv' else 'acr'}-of-row", f"{label} at row {i} is {part[nme][j][q:q + 3].tolist()} but row {i} of the converted array is {whole[nme][i][q:q + 3].tolist()} ({ell})", {**cj, "part": q // 3})
+        # ground truth: the triad of the row is the geodetic one of its own ellipsoid
+        lat, lon, h0 = c["ref_llh"][i]
+        if c["ref_sys"] == "llh" and not six:
+            lat_tol = lon_tol = 0.0
+        else:
+            pos_tol = (1e-6 if abs(h0) <= 1e5 else 2e-3) + 4 * math.ulp(E.a + abs(h0))
+            lat_tol = pos_tol / (E.b + h0)
+            lon_tol = pos_tol / max((E.a + h0) * abs(math.cos(lat)), 1e-30)
+        if part["e2t"].shape[0] == k:
+            triad_oracle(ctx, part["e2t"][j], lat, lon, cj, f"array[{kind}].enu2trs on {ell}", lat_tol, lon_tol)
+    # ---- correspondence: the frame of the rows through the model's trs2llh on the array's ellipsoid, per row
+    if part["t2e"].shape[0] == k:
+        if c["ref_sys"] == "trs" or six:
+            ans = drv.ask([f"c06 f frame {ell} {fline(*c['ref_trs'][i])}" for i in sel])
+        else:
+            ans = drv.ask([f"c06 f trs2enu {fline(c['ref_llh'][i][0], c['ref_llh'][i][1])}" for i in sel])
+        for j, i in enumerate(sel):
+            mod = floats(ans[j])
+            if not allclose(part["t2e"][j].ravel(), mod, ulp=4, abs_=1e-15):
+                gdisagree(ctx, "array[index].trs2enu (per-row frame on the array's ellipsoid, Float model)", {**c, "i": i, "j": j}, mod, part["t2e"][j].ravel().tolist())
+        # ... and the converted components: the model's `takeRows` of the whole arrays (reference frames of the *array*:
+        # the geodetic coordinates the array-level object reports), converted row by row
+        k6 = 6 if six else 3
+        cmd = ("d6" if six else "") + ("trs2enu" if dst == "enu" else "enu2trs")
+        data = " ".join(fline(whole["llh"][i][0], whole["llh"][i][1], *c["delta"][i], *(c["dvel"][i] if six else [])) for i in range(m))
+        got_rows = floats(drv.ask1(f"c06 f rows {cmd} {k} {' '.join(str(i) for i in sel)} {data}"))
+        ctx.count("model:takeRows+rows")
+        if len(got_rows) != k * k6:
+            gdisagree(ctx, "array-level model: takeRows selects the rows of the index", c, got_rows, sel)
+            return
+        for j, i in enumerate(sel):
+            mod = got_rows[k6 * j: k6 * j + k6]
+            if part["conv"].shape != (k, 6 if six else 3):
+                break
+            for q in range(0, 6 if six else 3, 3):
+                nd = float(np.linalg.norm((c["delta"] if q == 0 else c["dvel"])[i]))
+                if worst(part["conv"][j][q:q + 3], mod[q:q + 3]) > 4 * nd * 2.3e-16 + 1e-300:
+                    gdisagree(ctx, f"delta[index].{dst} (Float model on the frame of the row)", {**c, "i": i, "j": j, "part": q // 3}, mod[q:q + 3], part["conv"][j][q:q + 3].tolist())
+
+
+
+# --------------------------------------------------------------------------------------------------
 # along / cross / radial
 
 
@@ -683,6 +955,18 @@ def gen_state(rng):
     return r, v
 
 
+def near_states(rng, state0, m):
+    """m states of one trajectory: state0 and its two-body motion after i * dt, dt = 0.1 .. 10 ms / m"""
+    r0, v0 = np.array(state0[0], dtype=float), np.array(state0[1], dtype=float)
+    acc = -3.986004418e14 * r0 / float(np.linalg.norm(r0)) ** 3
+    dt = 10.0 ** rng.uniform(-4, -2) / m
+    out = [(list(state0[0]), list(state0[1]))]
+    for i in range(1, m):
+        t = i * dt
+        out.append(((r0 + v0 * t + 0.5 * acc * t * t).tolist(), (v0 + acc * t).tolist()))
+    return out
+
+
 def check_acr(ctx: Ctx):
     Position, PositionDelta, PosVel, PosVelDelta, ellipsoid, rotation, T = _imp()
     drv, rng = ctx.driver, ctx.rng
@@ -691,6 +975,12 @@ def check_acr(ctx: Ctx):
         m = rng.choice([1, 1, 1, 2, 3, 5])
         shape = rng.choice(["1d", "1xk"]) if m == 1 else "nxk"
         states = [gen_state(rng) for _ in range(m)]
+        if rng.random() < 0.3:
+            # one orbit sampled densely: the states of the rows are 0.1 .. 10 ms of motion apart
+            m, shape = max(m, rng.choice([2, 3, 6])), "nxk"
+            states = near_states(rng, states[0], m)
+            vals = np.array([list(r) + list(v) for r, v in states])
+            ctx.count("acr:states 0.1..10 ms apart" + (" (np.allclose to row 0)" if np.allclose(vals, vals[0]) else ""))
         deltas = [gen_vec(rng) + gen_vec(rng, -9, 4) for _ in range(m)]
         case = {"fn": "delta trs<->acr", "shape": shape, "states": states, "delta": deltas}
         ctx.case(case, nontrivial=True)
@@ -726,12 +1016,19 @@ def one_acr(ctx, case, shape, states, deltas):
                   f"c06 f d6trs2acr {fline(*r, *v)} {fline(*deltas[i])}",
                   f"c06 f d6acr2trs {fline(*r, *v)} {fline(*acr[i])}"]
     ans = drv.ask(lines)
+    allrows = " ".join(str(i) for i in range(m))
+    fwd = floats(drv.ask1(f"c06 f rows trs2acr {m} {allrows} " + " ".join(fline(*r, *v, *deltas[i]) for i, (r, v) in enumerate(states))))
+    bwd = floats(drv.ask1(f"c06 f rows acr2trs {m} {allrows} " + " ".join(fline(*r, *v, *acr[i]) for i, (r, v) in enumerate(states))))
+    ctx.count("model:rows(trs<->acr)")
+    if fwd != [x for i in range(m) for x in floats(ans[4 * i + 2])] or bwd != [x for i in range(m) for x in floats(ans[4 * i + 3])] or len(fwd) != 6 * m:
+        gdisagree(ctx, "array-level model rowsTrs2Acr/rowsAcr2Trs vs the one-row model", case, [fwd, bwd], ans)
     for i, (r, v) in enumerate(states):
         r, v = np.array(r), np.array(v)
         sin_rv = float(np.linalg.norm(np.cross(r / np.linalg.norm(r), v / np.linalg.norm(v))))
         # conditioning of the cross-track direction: errors grow like eps / sin(angle(r, v))
         mtol = 8 * 2.3e-16 / max(sin_rv, 1e-12)
-        mt, ma, md, mb = (floats(a) for a in ans[4 * i: 4 * i + 4])
+        mt, ma = (floats(a) for a in ans[4 * i: 4 * i + 2])
+        md, mb = fwd[6 * i: 6 * i + 6], bwd[6 * i: 6 * i + 6]
         if worst(t2a[i].ravel(), mt) > mtol:
             gdisagree(ctx, "PosVelArray.trs2acr (Float model)", {**case, "i": i}, mt, t2a[i].ravel().tolist())
         if worst(a2t[i].ravel(), ma) > mtol:
@@ -769,19 +1066,26 @@ def one_acr(ctx, case, shape, states, deltas):
             proj = np.array([np.dot(d, ahat), np.dot(d, chat), np.dot(d, rhat)])
             if float(np.max(np.abs(proj - acr[i][sl]))) > (REL + ttol) * nd + 1e-300:
                 gviolate(ctx, "acr=projections-on-triad", f"acr components {acr[i][sl].tolist()} are not the projections {proj.tolist()} on along/cross/radial", {**case, "i": i, "part": part})
-    # shapes: one state as (6,), (1,6) and as row 0 of the array give the same numbers
-    r0, v0 = np.array(states[0][0]), np.array(states[0][1])
-    sin0 = float(np.linalg.norm(np.cross(r0 / np.linalg.norm(r0), v0 / np.linalg.norm(v0))))
-    stol = 16 * 2.3e-16 / max(sin0, 1e-12)
-    for sh in ("1d", "1xk"):
-        ref1 = PosVel(as_shape([list(states[0][0]) + list(states[0][1])], sh), "trs")
-        d1 = PosVelDelta(as_shape([deltas[0]], sh), "trs", ref_pos=ref1)
-        got = np.asarray(d1.acr, dtype=float).ravel()
-        if got.shape != acr[0].shape or float(np.max(np.abs(got - acr[0]))) > (stol + 1e-15) * 4 * float(np.linalg.norm(deltas[0])):
-            gviolate(ctx, f"shape-consistency:delta.acr:{sh}", f"delta.acr of one state given as {sh} is {got.tolist()} but {acr[0].tolist()} as row of an array", {**case, "as": sh})
-        m1 = np.asarray(ref1.trs2acr, dtype=float).reshape(3, 3)
-        if float(np.max(np.abs(m1 - t2a[0]))) > stol:
-            gviolate(ctx, f"shape-consistency:trs2acr:{sh}", f"trs2acr of one state given as {sh} is {m1.tolist()} but {t2a[0].tolist()} as row of an array", {**case, "as": sh})
+            comb = acr[i][sl][0] * ahat + acr[i][sl][1] * chat + acr[i][sl][2] * rhat
+            if float(np.max(np.abs(comb - back[i][sl]))) > (REL + ttol) * nd + 1e-300:
+                gviolate(ctx, "trs=combination-of-acr-triad", f"acr -> trs gives {back[i][sl].tolist()} but a*along + c*cross + r*radial of the row's state is {comb.tolist()}", {**case, "i": i, "part": part})
+    # rows are independent: one state as (6,) and (1,6) on its own gives the numbers of its row of the array (first and last row)
+    for j in sorted({0, m - 1}):
+        r0, v0 = np.array(states[j][0]), np.array(states[j][1])
+        sin0 = float(np.linalg.norm(np.cross(r0 / np.linalg.norm(r0), v0 / np.linalg.norm(v0))))
+        stol = 16 * 2.3e-16 / max(sin0, 1e-12)
+        for sh in ("1d", "1xk"):
+            ref1 = PosVel(as_shape([list(states[j][0]) + list(states[j][1])], sh), "trs")
+            d1 = PosVelDelta(as_shape([deltas[j]], sh), "trs", ref_pos=ref1)
+            got = np.asarray(d1.acr, dtype=float).ravel()
+            if got.shape != acr[j].shape or any(float(np.max(np.abs(got[q:q + 3] - acr[j][q:q + 3]))) > (stol + 1e-15) * 4 * float(np.linalg.norm(deltas[j][q:q + 3])) for q in (0, 3)):
+                gviolate(ctx, f"shape-consistency:delta.acr:{sh}", f"delta.acr of state {j} given on its own as {sh} is {got.tolist()} but {acr[j].tolist()} as row of an array", {**case, "as": sh, "i": j})
+            back1 = np.asarray(PosVelDelta(as_shape([acr[j].tolist()], sh), "acr", ref_pos=ref1).trs, dtype=float).ravel()
+            if back1.shape != (6,) or any(float(np.max(np.abs(back1[q:q + 3] - np.array(deltas[j][q:q + 3])))) > (REL + 4 * stol) * float(np.linalg.norm(deltas[j][q:q + 3])) for q in (0, 3)):
+                gviolate(ctx, f"shape-consistency:acr-delta.trs:{sh}", f"the along/cross/radial components of row {j} converted to TRS on their own ({sh}) give {back1.tolist()}, the vector was {list(deltas[j])}", {**case, "as": sh, "i": j})
+            m1 = np.asarray(ref1.trs2acr, dtype=float).reshape(3, 3)
+            if float(np.max(np.abs(m1 - t2a[j]))) > stol:
+                gviolate(ctx, f"shape-consistency:trs2acr:{sh}", f"trs2acr of state {j} given on its own as {sh} is {m1.tolist()} but {t2a[j].tolist()} as row of an array", {**case, "as": sh, "i": j})
 
 
 # --------------------------------------------------------------------------------------------------
@@ -845,8 +1149,13 @@ def check_azel(ctx: Ctx):
             gviolate(ctx, f"shape:azel:{shape}", f"azimuth has shape {az.shape} for {m} positions", case)
             continue
         ans = drv.ask([f"c06 f azel {fline(llh[i][0], llh[i][1])} {fline(*trs_rows[i])} {fline(*targets[i])}" for i in range(m)])
+        arr = floats(drv.ask1("c06 f rowsazel " + " ".join(f"{fline(llh[i][0], llh[i][1])} {fline(*trs_rows[i])} {fline(*targets[i])}" for i in range(m))))
+        ctx.count("model:rowsAzElZd")
+        if arr != [x for i in range(m) for x in floats(ans[i])] or len(arr) != 3 * m:
+            gdisagree(ctx, "array-level model rowsAzElZd vs the one-row model", case, arr, ans)
+            continue
         for i in range(m):
-            maz, mel, mzd = floats(ans[i])
+            maz, mel, mzd = arr[3 * i: 3 * i + 3]
             d = np.array(targets[i]) - np.array(trs_rows[i])
             nd = float(np.linalg.norm(d))
             # cancellation in target - reference limits the direction to ~ ulp(|p|)/|d|
@@ -899,6 +1208,8 @@ def replay(payload):
                       c["delta"], c.get("dvel") or [[0.0, 0.0, 0.0]] * len(c["delta"]), six)
         elif fn == "history: read, replace, read":
             one_history(ctx, c)
+        elif fn == "rows of an array":
+            one_indexed(ctx, c)
         elif fn == "corpus":
             corpus_case(ctx, c)
         else:
